@@ -680,6 +680,23 @@ def r17_6(ctx):
                 k = cu.const_of(cu.strip_casts(f, a[1]))
                 if k is not None:
                     uses.append((c, canon(f, a[0]), k))
+            else:
+                # a static helper that indexes sections of an arena it is handed: its uses
+                # happen at this call, on the arena passed here
+                h = f.tu.functions.get(c.get('callee') or '')
+                if h is None or not getattr(h, 'static', False):
+                    continue
+                pn = [p_['name'] for p_ in h.params]
+                for hc in h.calls():
+                    if hc.get('callee') in ('yr_arena_get_ptr', 'yr_arena_get_current_offset'):
+                        ha = h.call_args(hc)
+                        k = cu.const_of(cu.strip_casts(h, ha[1]))
+                        a0 = cu.strip_casts(h, ha[0])
+                        if k is not None and a0 is not None and a0['k'] == 'ref' and a0['name'] in pn:
+                            j = pn.index(a0['name'])
+                            args = f.call_args(c)
+                            if j < len(args):
+                                uses.append((c, canon(f, args[j]), k))
         if not uses:
             continue
         ids = {u[0]['i']: u for u in uses}
@@ -699,9 +716,15 @@ def r17_6(ctx):
                 return facts
             l = canon(f, f.kid(c, 0))
             k = cu.const_of(cu.strip_casts(f, f.kid(c, 1)))
+            cop = c['op']
+            if k is None and cu.const_of(cu.strip_casts(f, f.kid(c, 0))) is not None:
+                # the constant on the left: K > n  is  n < K
+                l = canon(f, f.kid(c, 1))
+                k = cu.const_of(cu.strip_casts(f, f.kid(c, 0)))
+                cop = {'<': '>', '<=': '>=', '>': '<', '>=': '<=', '!=': '!=', '==': '=='}[cop]
             if not l.endswith('->num_buffers') or k is None:
                 return facts
-            op = c['op'] if p2 else {'<': '>=', '<=': '>', '>': '<=', '>=': '<', '!=': '==', '==': '!='}[c['op']]
+            op = cop if p2 else {'<': '>=', '<=': '>', '>': '<=', '>=': '<', '!=': '==', '==': '!='}[cop]
             ge = None
             if op == '>=':
                 ge = k
